@@ -37,6 +37,7 @@ Proof. reflexivity. Qed.
 
 Print Assumptions C20_accept_iff.
 Print Assumptions C20_build_total.
+Print Assumptions C20_build_total_unprefixed.
 Print Assumptions C20_single_name.
 Print Assumptions C20_injective.
 Print Assumptions C20_isolation.
